@@ -6,7 +6,7 @@ export CARGO_TARGET_DIR=$WT/target CARGO_NET_OFFLINE=true
 cd $WT || exit 2
 git checkout -q -- . ; git clean -fdq -e target
 git apply $D/patch.diff || { echo "$ID/$X: PATCH FAILS"; exit 1; }
-SUITE=$(cargo test --workspace --offline 2>&1 | grep -E "^test result" | awk '{p+=$4; f+=$6} END {print p" passed "f" failed"}')
+SUITE=$(cargo test --workspace --offline --no-fail-fast 2>&1 | grep -E "^test result|^test .* FAILED" | awk '/^test result/ {p+=$4; f+=$6} /FAILED$/ {n=n" "$2} END {print p" passed "f" failed" (n ? " (failed:" n ")" : "")}')
 run_demo() {
   if [ -f $D/demo.sh ]; then
     sh $D/demo.sh $WT 2>&1 | grep -E "^test result|exit|distinct" | tail -2 | tr '\n' ' '
